@@ -5,15 +5,17 @@
   * `Mwp.coverage_full_untouched`       (C07)  SyntaxThmsCov2
   * `Mwp.coverage_mod_full`             (C07)  SyntaxThmsCov2
   * `Mwp.full_implies_modellable_partial` (C05) SyntaxThmsCalc
+  * `Mwp.full_implies_effect_free_conditions` (C05) SyntaxThmsConds
 
-  Below: the witnesses showing that each hypothesis of the C05 theorem is needed, and the
-  negative witness for effectful conditions.  (`covN`, `desugar`, `unmodellable` are compiled by
+  Below: the witnesses showing that each hypothesis of the C05 theorem is needed, and positive
+  examples for the repaired behaviours (effectful conditions, nested unary).  (`covN`, `desugar`, `unmodellable` are compiled by
   well-founded recursion and do not reduce in the kernel, so these are evaluated with `simp`
   over the defining equations rather than `decide`.)
 -/
 import Mwp.Lemmas.SyntaxThmsVars
 import Mwp.Lemmas.SyntaxThmsCov2
 import Mwp.Lemmas.SyntaxThmsCalc
+import Mwp.Lemmas.SyntaxThmsConds
 namespace Mwp
 open Mwp Mwp.Syntax
 
@@ -25,6 +27,16 @@ def wrapF (s : Node) : Node :=
 def witEffectfulCond : Node :=
   wrapF (.ifs (.assign "=" (.id "x") (.binop "+" (.id "y") (.id "z")))
     (some (.compound (some [.assign "=" (.id "z") (.binop "+" (.id "x") (.id "y"))]))) none)
+
+/-- `while (x++ < 10) { y = y + 1; }` -/
+def witEffectfulWhile : Node :=
+  wrapF (.while_ (.binop "<" (.unop "p++" (.id "x")) (.const "int" "10"))
+    (.compound (some [.assign "=" (.id "y") (.binop "+" (.id "y") (.const "int" "1"))])))
+
+/-- `while (x < 10) { y = y + 1; }` -/
+def exPlainWhile : Node :=
+  wrapF (.while_ (.binop "<" (.id "x") (.const "int" "10"))
+    (.compound (some [.assign "=" (.id "y") (.binop "+" (.id "y") (.const "int" "1"))])))
 
 /-- `x = - -y;` -/
 def witNestedUnary : Node := wrapF (.assign "=" (.id "x") (.unop "-" (.unop "-" (.id "y"))))
@@ -53,9 +65,9 @@ def witIncDecOfConst : Node := wrapF (.assign "=" (.id "x") (.unop "++" (.const 
 def witIllShaped : Node := wrapF .typeDecl
 
 macro "cov_eval" : tactic => `(tactic|
-  simp [witEffectfulCond, witNestedUnary, witNestedUnaryCasts, witUnaryOfCastExpr, witIncDecOfConst,
+  simp [witEffectfulCond, witEffectfulWhile, exPlainWhile, witNestedUnary, witNestedUnaryCasts, witUnaryOfCastExpr, witIncDecOfConst,
     witIllShaped, exNotOfNeg, exNotOfInc, emptyF, wrapF, coverage, covN, covList, covSlot, allowRhs,
-    allowOperand, nestedOk, Gen.incDec, Node.isId, Node.isUnop,
+    allowOperand, nestedOk, Gen.incDec, hasEffect, covBody, Node.isId, Node.isUnop,
     Node.isBinop, Node.isConst, Node.isCast, Node.rmCast1, Node.rmCast, Gen.binOps, Gen.uOps, bind,
     Except.bind, pure, Except.pure])
 
@@ -63,9 +75,15 @@ macro "unmod_eval" : tactic => `(tactic|
   simp [witIncDecOfConst, witIllShaped, exNotOfNeg, wrapF, Spec.unmodellable,
     Spec.unmodellableL, Spec.desugar, Spec.hasSideEffect, Node.rmCast, Spec.describe, Node.cls])
 
-/-! the model accepts `if (x = y + z) { z = x + y; }` although the condition has an effect -/
-example : coverage witEffectfulCond = .ok (0, witEffectfulCond) := by cov_eval
+/-! a condition that changes a variable makes the statement unsupported (formerly accepted:
+    `if (x = y + z) { z = x + y; }`, `while (x++ < 10) { y = y + 1; }`); the same loop with an
+    effect-free condition is accepted -/
 example : Spec.effectfulConds witEffectfulCond = ["If"] := by decide
+example : coverage witEffectfulCond = .ok (1, emptyF) := by cov_eval
+example : Spec.effectfulConds witEffectfulWhile = ["While"] := by decide
+example : coverage witEffectfulWhile = .ok (1, emptyF) := by cov_eval
+example : coverage exPlainWhile = .ok (0, exPlainWhile) := by cov_eval
+example : Spec.effectfulConds exPlainWhile = [] := by decide
 
 /-! `x = - -y` (formerly accepted: a nested unary operand is now accepted only under `!` /
     `sizeof`, and only if it is not `++`/`--`) is charged and removed by the syntax check;
